@@ -867,6 +867,14 @@ class Model(Object):
                         if context:
                             context(partial(gene._reaction.add, reaction))
 
+                            def restore_gene(reaction=reaction, gene=gene):
+                                # The reaction may lose the gene before the
+                                # context is left (added back to the model and
+                                # taken out again by the undo of that).
+                                reaction._genes.add(gene)
+
+                            context(restore_gene)
+
                         if remove_orphans and len(gene._reaction) == 0:
                             self.genes.remove(gene)
                             if context:
